@@ -41,6 +41,12 @@ pub fn run(ctx: &mut Ctx) {
         vec![TOp::Submit(false), TOp::Retrieve, TOp::NextPayload, TOp::Ready],
         vec![TOp::Prepare(vec![0], false), TOp::Retrieve, TOp::Ready, TOp::Submit(true), TOp::Submit(false), TOp::Retrieve, TOp::Submit(false)],
         vec![TOp::Prepare(vec![0, 1], false), TOp::Submit(true), TOp::Prepare(vec![2], false), TOp::NextPayload, TOp::Submit(true), TOp::Retrieve],
+        // a genuine request that ALSO carries a status member (10, 11, 20): it is the request it is
+        vec![TOp::NewRequest(1), TOp::DeliverReq(Delivery::LatestWithStatus(0)), TOp::Prepare(vec![0], false), TOp::NextPayload, TOp::Submit(true), TOp::Ready, TOp::Retrieve],
+        vec![TOp::NewRequest(2), TOp::DeliverReq(Delivery::LatestWithStatus(1)), TOp::Prepare(vec![0, 1], false), TOp::NextPayload, TOp::Submit(true), TOp::NextPayload, TOp::Submit(true), TOp::Retrieve],
+        vec![TOp::NewRequest(0), TOp::DeliverReq(Delivery::LatestWithStatus(2)), TOp::Prepare(vec![], false), TOp::Ready, TOp::Retrieve],
+        // status-only frames of every kind while a response is pending / ready: nothing is lost
+        vec![TOp::Prepare(vec![0, 1], false), TOp::DeliverReq(Delivery::NoData(0)), TOp::NextPayload, TOp::Submit(true), TOp::DeliverReq(Delivery::NoData(1)), TOp::NextPayload, TOp::Submit(true), TOp::DeliverReq(Delivery::NoData(4)), TOp::Ready, TOp::Retrieve],
     ];
     for (i, ops) in directed.into_iter().enumerate() {
         for ndocs in 1..=3 {
